@@ -5,6 +5,7 @@ pub mod driver;
 pub mod fl;
 pub mod json;
 pub mod rat;
+pub mod sched;
 pub mod refm;
 pub mod spl;
 pub mod subj;
